@@ -8,7 +8,7 @@
     `mid_step`     EVERY RemoveRelevantTx (finishing or not) preserves `Mid`
     `mid_done`     after a step that reports `finish`, no credit of `w` is left
 -/
-import MW.Lemmas.RemoveBooks
+import MW.Lemmas.RemoveBooks2
 import MW.Lemmas.LedgerInv
 namespace MW.Lemmas.RemoveInv
 open MW MW.Model.Ledger MW.Model.Remove MW.Spec.Chain MW.Spec.Books MW.Lemmas.Ledger MW.Lemmas.RemoveProj
@@ -340,7 +340,7 @@ theorem mid_step (limit : Nat) (H : RemHyp c w addrs own' chain) {s : Store} (hM
       exact ⟨oc, hoc, h1, by rw [h2]⟩
   have hERA : ∀ k ∈ ERA, ∃ loc, (bookOf c.p c.own chain).txrecs k = some loc := by
     intro k hk
-    obtain ⟨_, loc, _, hgl, _, _⟩ := hR.sound k hk
+    obtain ⟨_, _, loc, _, hgl, _, _⟩ := hR.sound k hk
     exact ⟨loc, htxB k loc hgl⟩
   refine ⟨⟨hn', ?_, ?_, ?_, ?_, ?_, ?_, ?_, ?_, ?_, ?_, ?_, ?_⟩, ?_⟩
   · -- credits
@@ -392,7 +392,7 @@ theorem mid_step (limit : Nat) (H : RemHyp c w addrs own' chain) {s : Store} (hM
     by_cases hk : k ∈ ERA
     · rw [if_pos hk]
       refine Or.inr ⟨rfl, ?_⟩
-      obtain ⟨_, loc, tx, hgl, hloc, hrem⟩ := hR.sound k hk
+      obtain ⟨_, _, loc, tx, hgl, hloc, hrem⟩ := hR.sound k hk
       cases hB' : (bookOf c.p own' chain).txrecs k with
       | none => rfl
       | some loc' =>
@@ -416,7 +416,61 @@ theorem mid_step (limit : Nat) (H : RemHyp c w addrs own' chain) {s : Store} (hM
     · rw [if_neg hk] at hgk
       obtain ⟨ck, cr, hgc, hw, halt⟩ := hM.txrecsW k loc hgk hB'
       by_cases hd : ck ∈ DEL.map (·.1)
-      · exfalso
+      · by_cases hnu : inUse o.s k = false
+        case neg =>
+          -- D45 repair: the record stays because a credit or a debit under its key is left: that one leads to it
+          have hiu : inUse o.s k = true := by cases h' : inUse o.s k with | true => rfl | false => exact absurd h' hnu
+          unfold inUse at hiu
+          simp only [Bool.or_eq_true, List.any_eq_true, Bool.and_eq_true, decide_eq_true_eq] at hiu
+          have hV' : ChainValid own' chain := chainValid_minus H.minus H.valid
+          rcases hiu with ⟨e, he, he1, he2⟩ | ⟨e, he, he1, he2⟩
+          · have hge : AMap.get o.s.credits e.1 = some e.2 := (mem_iff_get_of_nodup hn' e.1 e.2).1 he
+            cases hc : addrs.contains e.2.sh with
+            | true => exact ⟨e.1, e.2, hge, by rw [← H.managed]; exact hc, Or.inl ⟨he1, by rw [he2]⟩⟩
+            | false =>
+              exfalso
+              have hUc := hcrO' e he hc
+              have hB'c : (bookOf c.p own' chain).credits e.1 = some e.2 :=
+                (hBM.credits e.1 e.2).2 ⟨hUc, by rw [← H.managed]; exact hc⟩
+              obtain ⟨loc', hl'⟩ := credit_txrec hV' hB'c
+              have hkk : (e.1.tx, e.1.blk) = k := by rw [he1, he2]
+              rw [hkk, hB'] at hl'; cases hl'
+          · obtain ⟨d', hd'⟩ := Option.isSome_iff_exists.1 (mem_get_isSome he)
+            have hgs : AMap.get s.debits e.1 = some d' := by
+              have hd'' := hd'
+              rw [hR.debits] at hd''
+              by_cases hx : e.1 ∈ DEL.filterMap (fun e => spKey e.2)
+              · rw [if_pos hx] at hd''; cases hd''
+              · rw [if_neg hx] at hd''; exact hd''
+            have hUd : (bookOf c.p c.own chain).debits e.1 = some d' := by
+              rcases hM.debits e.1 with h1 | ⟨h1, _⟩
+              · rw [← h1]; exact hgs
+              · rw [hgs] at h1; cases h1
+            obtain ⟨cr', hcr', hsp'⟩ := debit_credit H.valid hUd
+            cases hw' : isW c.own w cr'.sh with
+            | true =>
+              have hgc' := hM.debitsW e.1 d' cr' hgs hcr' hw'
+              refine ⟨d'.2, cr', ?_, hw', Or.inr ⟨e.1, hsp', he1, by rw [he2]⟩⟩
+              rw [hR.credits]
+              by_cases hx : d'.2 ∈ DEL.map (·.1)
+              · exfalso
+                obtain ⟨e0, he0, hek0⟩ := (mem_keys_iff DEL d'.2).1 hx
+                have he02 : e0.2 = cr' := by
+                  have := (hDEL e0 he0).1
+                  rw [hek0, hgc'] at this
+                  exact (Option.some.inj this).symm
+                have hmem : e.1 ∈ DEL.filterMap (fun e => spKey e.2) :=
+                  List.mem_filterMap.2 ⟨e0, he0, by rw [he02]; exact hsp'⟩
+                rw [hR.debits, if_pos hmem] at hd'; cases hd'
+              · rw [if_neg hx]; exact hgc'
+            | false =>
+              exfalso
+              have hB'd : (bookOf c.p own' chain).debits e.1 = some d' :=
+                (hBM.debits e.1 d').2 ⟨hUd, cr', hcr', hw'⟩
+              obtain ⟨loc', hl'⟩ := debit_txrec hV' hB'd
+              have hkk : (e.1.tx, e.1.blk) = k := by rw [he1, he2]
+              rw [hkk, hB'] at hl'; cases hl'
+        exfalso
         apply hk
         obtain ⟨e, he, hek⟩ := (mem_keys_iff DEL ck).1 hd
         have he2 : e.2 = cr := by
@@ -442,7 +496,7 @@ theorem mid_step (limit : Nat) (H : RemHyp c w addrs own' chain) {s : Store} (hM
           · obtain ⟨h', hm⟩ := hR.hofSp e he dk (by rw [he2]; exact hdk)
             exact key dk.tx h1 h' hm
         obtain ⟨x, hxm, hx1, hx2⟩ := hx
-        refine hR.complete hU x hxm k loc oc1.t hx1.symm hx2.symm hgk hloc1 ?_
+        refine hR.complete hU x hxm k loc oc1.t hx1.symm hx2.symm hgk hloc1 ?_ hnu
         exact removable_of_not_needed H hcrO' (fun hcb => hpendO oc1 hoc1 hcb)
           (hnotNeeded k loc oc1 hBl hB' hoc1 hkk1)
       · exact ⟨ck, cr, by rw [hR.credits, if_neg hd]; exact hgc, hw, halt⟩
